@@ -1172,6 +1172,8 @@ def _interp_actions(fr):
         elif kind == 'copy':
             cp = app.request.copy()
             cp.environ['PATH_INFO'] = '/r/COPY' + fr['tok']
+            cp.verif_note = 'copy.' + fr['tok']                   # user attributes set on the copy are the copy's
+            cp._verif_priv = 'copy.' + fr['tok']
             cp.environ['HTTP_X_T'] = 'copy-' + fr['tok']          # the copy's headers differ from now on
             cp.environ['HTTP_COOKIE'] = 'cc=copy' + fr['tok']
             if fr.get('readonly'):
@@ -1239,6 +1241,23 @@ def _interp_actions(fr):
                 fr.pop('w_end')
             fr['w_location'] = 'http://localhost' + fr['path'] + act[1]
             ombott.redirect(act[1])
+        elif kind == 'redirect_cookie':
+            # ['redirect_cookie', target, name, 'set'|'delete']: redirect(), and the raised redirect response (a COPY of
+            # the current response of the default application) gets cookie `name` set again / deleted (ends the script)
+            fr['w_final'] = 'redirect'
+            fr['w_end'] = 303
+            fr['w_location'] = 'http://localhost' + fr['path'] + act[1]
+            if any(isinstance(v, list) for v in fr['w_hdrs'].values()):
+                fr['w_final'] = 'alone'
+                fr.pop('w_end')
+            try:
+                ombott.redirect(act[1])
+            except ombott.HTTPResponse as res:
+                if act[3] == 'delete':
+                    res.delete_cookie(act[2])
+                else:
+                    res.set_cookie(act[2], fr['tok'] + 'recookie')
+                raise
         elif kind == 'abort':
             fr['w_final'] = 'error'
             fr['w_end'] = act[1]
@@ -2063,16 +2082,24 @@ def _tokens(calls, acc):
     return acc
 
 
-def arrangement_failure(case, obs):
+def _without_foreign(rec):
+    if rec.get('where') == 'listen' and isinstance(rec.get('got'), dict) and 'foreign' in rec['got']:
+        return dict(rec, got={k: v for k, v in rec['got'].items() if k != 'foreign'})
+    return rec
+
+
+def _arr_failures(case, obs):
     """the properties C08/C10 stated on what was recorded: every look at app.request/app.response shows the
     call's own request and response; every response carries what its own handler put there and no text of any
     other call; every thread's records equal the records of the same call served alone."""
     if obs.get('hang'):
-        return 'scheduler hang'
+        yield 'scheduler hang'
+        return
     if any(obs.get('thread_errors') or []):
-        return 'thread died: %s' % obs['thread_errors']
+        yield 'thread died: %s' % obs['thread_errors']
+        return
     if obs.get('shared_changed'):
-        return 'serving requests changed state kept on the shared objects (not per thread): %s' % obs['shared_changed']
+        yield 'serving requests changed state kept on the shared objects (not per thread): %s' % obs['shared_changed']
     toks = _tokens(case['calls'], [])
     for ti, log in enumerate(obs['threads']):
         for rec in log:
@@ -2080,12 +2107,13 @@ def arrangement_failure(case, obs):
                 if rec.get('where') == 'listen' and rec['got'].get('foreign') and \
                         {k: v for k, v in rec['got'].items() if k != 'foreign'} == {k: v for k, v in rec['want'].items() if k != 'foreign'}:
                     ft = sorted({str(_entry_token(h)) for h in rec['got']['foreign']})
-                    return ('thread %d call %s (listen): its listener heard environ changes of other calls; foreign tokens: %s; heard %s'
+                    yield ('thread %d call %s (listen): its listener heard environ changes of other calls; foreign tokens: %s; heard %s'
                             % (ti, rec['tok'], ' '.join(ft), rec['got']['foreign']))
+                    continue
                 if rec['got'] != rec['want']:
                     diff = [k for k in rec['want'] if rec['got'].get(k) != rec['want'][k]]
                     extra = [k for k in rec['got'] if k not in rec['want']]
-                    return ('thread %d call %s (%s): handler sees %s, its own request/response has %s'
+                    yield ('thread %d call %s (%s): handler sees %s, its own request/response has %s'
                             % (ti, rec['tok'], rec.get('where', 'form'),
                                {k: rec['got'].get(k) for k in diff + extra}, {k: rec['want'][k] for k in diff}))
             elif rec['kind'] == 'response':
@@ -2094,65 +2122,85 @@ def arrangement_failure(case, obs):
                     continue
                 if rec['w_final'] == 'static':
                     if not (rec['status'] or '').startswith('200') or rec['body'] != rec['w_body']:
-                        return ('static_file(): thread %d: call %s (no conditional or range header) answered %r with %d bytes, '
+                        yield ('static_file(): thread %d: call %s (no conditional or range header) answered %r with %d bytes, '
                                 'expected 200 and the whole file' % (ti, tok, rec['status'], len(rec['body'])))
                     continue
                 if rec['w_final'] == 'redirect':
                     loc = [h[1] for h in rec['hdrs'] if h[0] == 'Location']
                     if not (rec['status'] or '').startswith('303') or loc != [rec['w_location']]:
-                        return ('redirect(): thread %d: call %s answered %r with Location %s, expected 303 to %s'
+                        yield ('redirect(): thread %d: call %s answered %r with Location %s, expected 303 to %s'
                                 % (ti, tok, rec['status'], loc, rec['w_location']))
                     continue
                 text = '%s %s %s' % (rec['status'], rec['hdrs'], rec['body'])
                 for other in toks:
                     if other != tok and not tok.startswith(other) and not other.startswith(tok) and other in text:
-                        return 'thread %d: response of call %s contains text of call %s' % (ti, tok, other)
+                        yield 'thread %d: response of call %s contains text of call %s' % (ti, tok, other)
                 if rec['w_final'] == 'escaped':
                     if rec['status'] is not None or not rec['body'].startswith('ESCAPED:'):
-                        return 'thread %d: call %s: catchall is off, the exception must leave the application' % (ti, tok)
+                        yield 'thread %d: call %s: catchall is off, the exception must leave the application' % (ti, tok)
                     continue
                 clen = [h[1] for h in rec['hdrs'] if h[0] == 'Content-Length']
                 if clen and not rec.get('nobody') and clen != [str(len(rec['body'].encode('latin1')))]:
-                    return ('thread %d: call %s sent Content-Length %s with a body of %d bytes'
+                    yield ('thread %d: call %s sent Content-Length %s with a body of %d bytes'
                             % (ti, tok, clen, len(rec['body'].encode('latin1'))))
                 code = int((rec['status'] or '0').split()[0])
                 if code != rec['w_status']:
-                    return 'thread %d: call %s answered %r, expected status %d' % (ti, tok, rec['status'], rec['w_status'])
+                    yield 'thread %d: call %s answered %r, expected status %d' % (ti, tok, rec['status'], rec['w_status'])
                 if rec.get('w_allow') and [h[1] for h in rec['hdrs'] if h[0] == 'Allow'] != [rec['w_allow']]:
-                    return 'thread %d: call %s: 405 without Allow: %s' % (ti, tok, rec['w_allow'])
+                    yield 'thread %d: call %s: 405 without Allow: %s' % (ti, tok, rec['w_allow'])
                 if rec.get('nobody') and rec['body']:
-                    return 'thread %d: call %s sent a body with a HEAD / 1xx / 204 / 304 answer' % (ti, tok)
+                    yield 'thread %d: call %s sent a body with a HEAD / 1xx / 204 / 304 answer' % (ti, tok)
                 if rec.get('w_line') is not None and rec['status'] != rec['w_line']:
-                    return ('thread %d: call %s answered with status line %r, its handler set %r'
+                    yield ('thread %d: call %s answered with status line %r, its handler set %r'
                             % (ti, tok, rec['status'], rec['w_line']))
                 if rec['w_final'] in ('text', 'gen'):
                     if rec['body'] != rec['w_body']:
-                        return 'thread %d: call %s body %r, expected %r' % (ti, tok, rec['body'][:80], rec['w_body'])
+                        yield 'thread %d: call %s body %r, expected %r' % (ti, tok, rec['body'][:80], rec['w_body'])
                     xh = [h for h in rec['hdrs'] if h[0].startswith('X-')]
                     if xh != rec['w_hdrs']:
-                        return 'thread %d: call %s headers %s, handler set %s' % (ti, tok, xh, rec['w_hdrs'])
+                        yield 'thread %d: call %s headers %s, handler set %s' % (ti, tok, xh, rec['w_hdrs'])
                     ck = sorted(h[1].split(';')[0].split('=', 1) for h in rec['hdrs'] if h[0] == 'Set-Cookie')
                     if ck != rec['w_cookies']:
-                        return 'thread %d: call %s cookies %s, handler set %s' % (ti, tok, ck, rec['w_cookies'])
+                        yield 'thread %d: call %s cookies %s, handler set %s' % (ti, tok, ck, rec['w_cookies'])
                 elif rec['w_final'] == 'critical':
                     # (the last-resort page quotes PATH_INFO only)
                     if rec.get('path', tok) not in rec['body'] and not rec.get('nobody'):
-                        return 'thread %d: last-resort page of call %s does not mention its own request' % (ti, tok)
+                        yield 'thread %d: last-resort page of call %s does not mention its own request' % (ti, tok)
                 elif not rec.get('nobody'):
                     ctype = ' '.join(h[1] for h in rec['hdrs'] if h[0] == 'Content-Type')
                     if rec.get('accept_json') != ctype.startswith('application/json'):
-                        return ('thread %d: error page of call %s has Content-Type %r, the request %s JSON'
+                        yield ('thread %d: error page of call %s has Content-Type %r, the request %s JSON'
                                 % (ti, tok, ctype, 'asked for' if rec.get('accept_json') else 'did not ask for'))
                     if 'text/html' in ctype and tok not in rec['body']:
-                        return 'thread %d: error page of call %s does not mention its own request' % (ti, tok)
-        if log != obs['solo'][ti]:
-            alone = obs['solo'][ti]
+                        yield 'thread %d: error page of call %s does not mention its own request' % (ti, tok)
+        # (what a listener heard from other calls is judged above, record by record)
+        log = [_without_foreign(r) for r in log]
+        if log != [_without_foreign(r) for r in obs['solo'][ti]]:
+            alone = [_without_foreign(r) for r in obs['solo'][ti]]
             k = next((i for i in range(min(len(log), len(alone))) if log[i] != alone[i]), min(len(log), len(alone)))
             a, b = (log[k] if k < len(log) else {}), (alone[k] if k < len(alone) else {})
             diff = {f: [a.get(f), b.get(f)] for f in sorted(set(a) | set(b)) if a.get(f) != b.get(f)}
-            return ('thread %d: record %d (%s of call %s) differs from the same call served alone: [here, alone] = %s'
+            yield ('thread %d: record %d (%s of call %s) differs from the same call served alone: [here, alone] = %s'
                     % (ti, k, a.get('kind') or b.get('kind'), a.get('tok') or b.get('tok'), json.dumps(diff)[:600]))
-    return None
+    return
+
+
+_KNOWN_SHAPES = ('redirect():', 'static_file():')
+
+
+def arrangement_failure(case, obs):
+    """the first failure of the case that is not of a shape covered by a listed finding (redirect() / static_file()
+    outside the default application, a handler's listener hearing other threads); if there are only such, the first one.
+    (A case that shows a listed finding AND something else is reported for the something else.)"""
+    first = None
+    for n, m in enumerate(_arr_failures(case, obs)):
+        if first is None:
+            first = m
+        if not (m.startswith(_KNOWN_SHAPES) or '(listen): its listener heard' in m):
+            return m
+        if n > 200:
+            break
+    return first
 
 
 # ---------------------------------------------------------------------------
